@@ -135,17 +135,17 @@ def shipped_modes(impl, static):
     """{mode: 6 arrays (nlon, ncol, nt)} of one shipped implementation on the C15 grid (physical units)."""
     import numpy as np
     from TidalPy.tides import potential as P
-    from mc.props.C14 import IMPL
+    from mc.props.C14 import IMPL, jit_call
     spec = IMPL[impl]
     L, C, T = [np.ascontiguousarray(x) for x in np.meshgrid(np.asarray(LON), np.asarray(COL), np.asarray(TIM), indexing='ij')]
     R, a, Mh, n = 1.8216e6, 4.217e8, 1.898e27, 4.11e-5
     f = getattr(P, spec['fn'])
     if spec['kind'] == 'sync':
-        out = f(R, L, C, T, n, 0.1, Mh, a)
+        out = jit_call(f, R, L, C, T, n, 0.1, Mh, a)
     elif spec['kind'] == 'noobl':
-        out = f(R, L, C, T, n, 1.5 * n, 0.1, Mh, a, bool(static))
+        out = jit_call(f, R, L, C, T, n, 1.5 * n, 0.1, Mh, a, bool(static))
     else:
-        out = f(R, L, C, T, n, 1.5 * n, 0.1, 0.3, Mh, a, bool(static))
+        out = jit_call(f, R, L, C, T, n, 1.5 * n, 0.1, 0.3, Mh, a, bool(static))
     return {str(k): tuple(np.ascontiguousarray(np.asarray(x)) for x in v) for k, v in out[2].items()}
 
 
@@ -256,6 +256,7 @@ def check_one(pot, rad, y, mu, K, l, extra, w, elastic_real, viol, worst, label)
     from TidalPy.tides.multilayer.stress_strain import calculate_strain_stress
     from TidalPy.tides.heating import calculate_volumetric_heating
     from TidalPy.tides.multilayer.displacements import calculate_displacements
+    from mc.props.C14 import jit_call
     lon, col, tim = np.asarray(LON), np.asarray(COL), np.asarray(TIM)
     nr = len(rad)
     shape = (6, nr, len(lon), len(col), len(tim))
@@ -264,7 +265,7 @@ def check_one(pot, rad, y, mu, K, l, extra, w, elastic_real, viol, worst, label)
         viol.append((site, dict(err=float(err) if err is not None else None, tol=TOL, where=label, **d)))
 
     try:
-        strains, stresses = calculate_strain_stress(*pot, y, lon, col, tim, rad, mu, K, float(w), order_l=int(l))
+        strains, stresses = jit_call(calculate_strain_stress, *pot, y, lon, col, tim, rad, mu, K, float(w), int(l))
     except Exception as ex:
         viol.append((f'C15/calculate_strain_stress/exception/{type(ex).__name__}', dict(msg=str(ex)[:300], where=label)))
         return
@@ -303,7 +304,7 @@ def check_one(pot, rad, y, mu, K, l, extra, w, elastic_real, viol, worst, label)
 
     # heating
     try:
-        H = np.asarray(calculate_volumetric_heating(stresses, strains))
+        H = np.asarray(jit_call(calculate_volumetric_heating, stresses, strains))
     except Exception as ex:
         viol.append((f'C15/calculate_volumetric_heating/exception/{type(ex).__name__}', dict(msg=str(ex)[:300], where=label)))
         H = None
@@ -330,7 +331,7 @@ def check_one(pot, rad, y, mu, K, l, extra, w, elastic_real, viol, worst, label)
     # displacements
     try:
         C3 = np.ascontiguousarray(np.broadcast_to(col[None, :, None], pot[0].shape))
-        d = calculate_displacements(pot[0], pot[1], pot[2], y, C3)
+        d = jit_call(calculate_displacements, pot[0], pot[1], pot[2], y, C3)
         d = np.stack([np.asarray(x) for x in d])
         if d.shape != (3,) + shape[1:]:
             add('C15/displacements/shape', None, got=list(d.shape))
